@@ -91,6 +91,12 @@ def dtype_converted(v, target, sources, has_request=False) -> tuple:
                 return walk(t[2], (not pol)) or walk(t[3], pol)
             return walk(t[2], requested) or walk(t[3], requested)
         a0 = t[2][0]
+        # resolve_dtype names a string / passes an object through; only convert_dtype translates a dtype *object of the source library*.
+        # The source's own dtype therefore has to go through convert_dtype -- also when it arrives as the default of the caller's option.
+        foreign = a0 in src_dtypes or (a0[0] == "f" and a0[1] == "method:pop" and len(a0[2]) >= 3 and a0[2][2] in src_dtypes)
+        if foreign and "convert_dtype" not in t[1]:
+            return (f"the source set's dtype object reaches {t[1].rsplit(':', 1)[-1]}(..., target) ({T.show(a0)[:70]}): that helper does not translate a dtype object of another library, "
+                    "so converting into a different namespace without an explicit dtype raises (torch.float32 is not a NumPy dtype) -- the source's dtype must go through convert_dtype")
         if is_request(a0):
             if requested is False:
                 return f"the requested dtype is converted on the path where none was requested (it is None there): {T.show(t)[:100]}"
@@ -541,6 +547,7 @@ MUTANTS = [
     M("array_to_namespace into numpy always", _S, "x = asarray(x, self.xp, **kwargs)", "x = asarray(x, np, **kwargs)", "C15.a2n"),
 ]
 MUTANTS += [
+    M("from_samples defaults the requested dtype to the source set's dtype object", _S, "dtype = kwargs.pop(\"dtype\", None)\n        if dtype is not None:\n            dtype = resolve_dtype(dtype, xp)", "dtype = kwargs.pop(\"dtype\", samples.dtype)\n        if dtype is not None:\n            dtype = resolve_dtype(dtype, xp)", "C15.dtype"),
     M("torch to JAX hand-over through DLPack without making the tensor contiguous", "src/aspire/utils.py", "if dtype is not None:\n        kwargs[\"dtype\"] = resolve_dtype(dtype, xp=xp)\n    return xp.asarray(x, **kwargs)",
       "if is_torch_array(x) and is_jax_namespace(xp) and not kwargs:\n        array = xp.from_dlpack(x.detach())\n        if dtype is not None:\n            array = array.astype(resolve_dtype(dtype, xp=xp))\n        return array\n    if dtype is not None:\n        kwargs[\"dtype\"] = resolve_dtype(dtype, xp=xp)\n    return xp.asarray(x, **kwargs)", "C15.helpers"),
     M("output namespace option re-applies the instance's dtype object", _A, "samples = samples.to_namespace(xp)", "samples = samples.to_namespace(xp, dtype=self.dtype)", "C15.route"),
